@@ -109,22 +109,11 @@ theorem evalDiscard_map_getInner (es : List Expr) (σ : State N) :
 
 /-! ### `expressions_as_statement` -/
 
-theorem foldl_pushValue_calls (es : List Expr) (acc : List Stmt)
-    (h : ∀ e ∈ es, isCall (getInner e) = true) :
-    es.foldl (fun acc e => pushValue acc (getInner e)) acc = acc ++ (es.map getInner).map Stmt.callStmt := by
-  induction es generalizing acc with
-  | nil => simp
-  | cons e rest ih =>
-    have he : isCall (getInner e) = true := h e List.mem_cons_self
-    have hp : pushValue acc (getInner e) = acc ++ [Stmt.callStmt (getInner e)] := by
-      simp [pushValue, he]
-    rw [List.foldl_cons, hp, ih _ (fun x hx => h x (List.mem_cons_of_mem _ hx))]
-    simp
-
-/-- `expressions_as_statement` only ever builds call statements and `local` statements -/
+/-- `expressions_as_statement` only ever builds call statements, `local` statements and (F36 fix) `do` blocks -/
 def isCallOrLocal : Stmt → Bool
   | .callStmt _ => true
   | .localAssign _ _ _ => true
+  | .doBlock _ => true
   | _ => false
 
 theorem mem_of_mem_dropLast' {α : Type} (a : α) : ∀ (l : List α), a ∈ l.dropLast → a ∈ l
@@ -136,8 +125,8 @@ theorem mem_of_mem_dropLast' {α : Type} (a : α) : ∀ (l : List α), a ∈ l.d
     · exact h ▸ List.mem_cons_self
     · exact List.mem_cons_of_mem _ (mem_of_mem_dropLast' a (y :: rest) h)
 
-theorem pushValue_shape (acc : List Stmt) (v : Expr) (h : ∀ t ∈ acc, isCallOrLocal t = true) :
-    ∀ t ∈ pushValue acc v, isCallOrLocal t = true := by
+theorem pushValue_shape (acc : List Stmt) (v : Expr) (later : Bool) (h : ∀ t ∈ acc, isCallOrLocal t = true) :
+    ∀ t ∈ pushValue acc v later, isCallOrLocal t = true := by
   intro t ht
   unfold pushValue at ht
   split at ht
@@ -146,26 +135,56 @@ theorem pushValue_shape (acc : List Stmt) (v : Expr) (h : ∀ t ∈ acc, isCallO
     · simp only [List.mem_singleton] at h1; subst h1; rfl
   · split at ht
     · rcases List.mem_append.mp ht with h1 | h1
-      · exact h t (mem_of_mem_dropLast' t _ h1)
-      · simp only [List.mem_singleton] at h1; subst h1; rfl
-    · rcases List.mem_append.mp ht with h1 | h1
       · exact h t h1
       · simp only [List.mem_singleton] at h1; subst h1; rfl
+    · split at ht
+      · rcases List.mem_append.mp ht with h1 | h1
+        · exact h t (mem_of_mem_dropLast' t _ h1)
+        · simp only [List.mem_singleton] at h1; subst h1; rfl
+      · rcases List.mem_append.mp ht with h1 | h1
+        · exact h t h1
+        · simp only [List.mem_singleton] at h1; subst h1; rfl
 
-theorem foldl_pushValue_shape (es : List Expr) (acc : List Stmt) (h : ∀ t ∈ acc, isCallOrLocal t = true) :
-    ∀ t ∈ es.foldl (fun acc e => pushValue acc (getInner e)) acc, isCallOrLocal t = true := by
-  induction es generalizing acc with
+theorem foldl_pushValue_shape (ps : List (Expr × Bool)) (acc : List Stmt) (h : ∀ t ∈ acc, isCallOrLocal t = true) :
+    ∀ t ∈ ps.foldl (fun acc p => pushValue acc (getInner p.1) p.2) acc, isCallOrLocal t = true := by
+  induction ps generalizing acc with
   | nil => simpa using h
-  | cons e rest ih =>
+  | cons p rest ih =>
     rw [List.foldl_cons]
-    exact ih _ (pushValue_shape acc (getInner e) h)
+    exact ih _ (pushValue_shape acc (getInner p.1) p.2 h)
 
 theorem asStatements_shape (es : List Expr) : ∀ t ∈ asStatements es, isCallOrLocal t = true :=
-  foldl_pushValue_shape es [] (by simp)
+  foldl_pushValue_shape _ [] (by simp)
+
+theorem usedLaterFlags_length (es : List Expr) : (usedLaterFlags es).length = es.length := by
+  induction es with
+  | nil => rfl
+  | cons e rest ih => simp [usedLaterFlags, ih]
+
+theorem foldl_pushValue_calls (ps : List (Expr × Bool)) (acc : List Stmt)
+    (h : ∀ p ∈ ps, isCall (getInner p.1) = true) :
+    ps.foldl (fun acc p => pushValue acc (getInner p.1) p.2) acc
+      = acc ++ (ps.map fun p => Stmt.callStmt (getInner p.1)) := by
+  induction ps generalizing acc with
+  | nil => simp
+  | cons p rest ih =>
+    have he : isCall (getInner p.1) = true := h p List.mem_cons_self
+    have hp : pushValue acc (getInner p.1) p.2 = acc ++ [Stmt.callStmt (getInner p.1)] := by
+      simp [pushValue, he]
+    rw [List.foldl_cons, hp, ih _ (fun x hx => h x (List.mem_cons_of_mem _ hx))]
+    simp
+
+theorem zip_flags_fst (es : List Expr) : (es.zip (usedLaterFlags es)).map Prod.fst = es :=
+  List.map_fst_zip (by rw [usedLaterFlags_length]; exact Nat.le_refl _)
 
 theorem asStatements_calls (es : List Expr) (h : ∀ e ∈ es, isCall (getInner e) = true) :
     asStatements es = (es.map getInner).map Stmt.callStmt := by
-  simpa [asStatements] using foldl_pushValue_calls es [] h
+  have hp : ∀ p ∈ es.zip (usedLaterFlags es), isCall (getInner p.1) = true := by
+    intro p hp
+    exact h p.1 (List.of_mem_zip hp).1
+  simp only [asStatements, foldl_pushValue_calls _ [] hp, List.nil_append]
+  have := congrArg (List.map fun e => Stmt.callStmt (getInner e)) (zip_flags_fst es)
+  simpa [List.map_map, Function.comp_def] using this
 
 /-- a sequence of call statements = its calls evaluated in order, values discarded -/
 theorem execSs_callStmts (cs : List Expr) (σ : State N) :
